@@ -93,17 +93,96 @@ pub fn set_limit(limit: usize)
     LIMIT.with(|l| l.set(limit));
 }
 
-/// Records an event if a sink is installed on this thread.
+/// Records an event if a sink is installed on this thread (or, with `COBWEB_VERIF_DIR` set, in the thread's own
+/// automatic sink, which is written to a file when the thread ends).
 pub fn emit(event: Event)
 {
+    let mut event = Some(event);
     let full = SINK.with(|s| {
         let mut s = s.borrow_mut();
         let Some(v) = s.as_mut() else { return false; };
-        if v.len() >= LIMIT.with(|l| l.get()) { return true; }
-        v.push(event);
+        if v.len() >= LIMIT.with(|l| l.get()) { event = None; return true; }
+        v.push(event.take().unwrap());
         false
     });
     if full && !std::thread::panicking() { panic!("{}", LIMIT_MSG); }
+    if let Some(event) = event { auto_emit(event); }
+}
+
+//-------------------------------------------------------------------------------------------------------------------
+
+/// Automatic per-thread sink: used to record the hook events of programs that know nothing about this module
+/// (the repository's own test suite). Enabled by the environment variable `COBWEB_VERIF_DIR`.
+struct AutoSink
+{
+    events: Vec<Event>,
+}
+
+impl Drop for AutoSink
+{
+    fn drop(&mut self)
+    {
+        let Some(dir) = auto_dir() else { return; };
+        static COUNTER: std::sync::atomic::AtomicUsize = std::sync::atomic::AtomicUsize::new(0);
+        let n = COUNTER.fetch_add(1, std::sync::atomic::Ordering::SeqCst);
+        let name: String = std::thread::current().name().unwrap_or("thread")
+            .chars().map(|c| if c.is_ascii_alphanumeric() || c == '_' { c } else { '.' }).collect();
+        let mut text = String::new();
+        for event in self.events.iter() { text.push_str(&raw_json(event)); text.push('\n'); }
+        if std::thread::panicking() { text.push_str("{\"t\":\"threadpanic\"}\n"); }
+        let _ = std::fs::write(format!("{dir}/{name}-{n}.ndjson"), text);
+    }
+}
+
+thread_local! { static AUTO: RefCell<Option<AutoSink>> = const { RefCell::new(None) }; }
+
+fn auto_dir() -> Option<&'static String>
+{
+    static DIR: std::sync::OnceLock<Option<String>> = std::sync::OnceLock::new();
+    DIR.get_or_init(|| std::env::var("COBWEB_VERIF_DIR").ok()).as_ref()
+}
+
+fn auto_emit(event: Event)
+{
+    if auto_dir().is_none() { return; }
+    let _ = AUTO.try_with(|a| {
+        let mut a = a.borrow_mut();
+        let sink = a.get_or_insert_with(|| AutoSink{ events: Vec::new() });
+        if sink.events.len() < 1_000_000 { sink.events.push(event); }
+    });
+}
+
+/// One raw event as a JSON object (entities as bits, types as their debug string).
+fn raw_json(event: &Event) -> String
+{
+    let ent = |e: &Entity| e.to_bits();
+    let opt = |e: &Option<Entity>| e.map(|e| e.to_bits()).unwrap_or(0);
+    let ty = |t: &Option<TypeId>| t.map(|t| format!("{t:?}")).unwrap_or_default();
+    match event
+    {
+        Event::User(s) => s.clone(),
+        Event::Cmd{ kind, sys, src, rtype, data } => format!(
+            "{{\"t\":\"cmd\",\"kind\":\"{kind}\",\"sys\":{},\"src\":{},\"rk\":\"{}\",\"rt\":\"{}\",\"data\":{}}}",
+            ent(sys), opt(src), rtype.map(|r| r.0).unwrap_or(""), ty(&rtype.map(|r| r.1)), opt(data)),
+        Event::Sched{ trig, ty: t, ent: e } => format!(
+            "{{\"t\":\"sched_h\",\"trig\":\"{trig}\",\"ty\":\"{}\",\"ent\":{}}}", ty(t), opt(e)),
+        Event::Queued{ sys, data } => format!("{{\"t\":\"queued\",\"sys\":{},\"data\":{}}}", ent(sys), opt(data)),
+        Event::Enter{ k, sys, idx } => format!("{{\"t\":\"enter\",\"k\":{k},\"sys\":{},\"idx\":{idx}}}", ent(sys)),
+        Event::Abort{ k, why } => format!("{{\"t\":\"abort\",\"k\":{k},\"why\":\"{why}\"}}"),
+        Event::Postpone{ k } => format!("{{\"t\":\"postpone\",\"k\":{k}}}"),
+        Event::Take{ k } => format!("{{\"t\":\"take\",\"k\":{k}}}"),
+        Event::Reinsert{ sys } => format!("{{\"t\":\"reinsert\",\"sys\":{}}}", ent(sys)),
+        Event::DropCallback{ sys } => format!("{{\"t\":\"dropcb\",\"sys\":{}}}", ent(sys)),
+        Event::Replay{ k } => format!("{{\"t\":\"replay\",\"k\":{k}}}"),
+        Event::Discard{ k } => format!("{{\"t\":\"discard\",\"k\":{k}}}"),
+        Event::Exit{ k } => format!("{{\"t\":\"exit\",\"k\":{k}}}"),
+        Event::GcStart => "{\"t\":\"gcstart\"}".to_string(),
+        Event::GcDespawn{ ent: e } => format!("{{\"t\":\"gcdespawn\",\"ent\":{}}}", ent(e)),
+        Event::GcEnd => "{\"t\":\"gcend\"}".to_string(),
+        Event::PollStart => "{\"t\":\"poll\"}".to_string(),
+        Event::PollEnd => "{\"t\":\"pollend\"}".to_string(),
+        Event::OnceDespawn{ sys, alive } => format!("{{\"t\":\"oncedespawn\",\"sys\":{},\"alive\":{}}}", ent(sys), *alive as u8),
+    }
 }
 
 /// Fresh identity for a `SystemCommandSetup`.
